@@ -251,7 +251,7 @@ func nilMarkerRule(c *Ctx, rule string) {
 			if fn.Blocks == nil || !strings.HasPrefix(short(fpkgPath(fn)), "storage/") {
 				continue
 			}
-			for _, b := range fn.Blocks {
+			for _, b := range blocksIP(fn) {
 				for _, in := range b.Instrs {
 					bo, ok := in.(*ssa.BinOp)
 					if !ok {
